@@ -87,6 +87,9 @@ func genC07Op(sc *Scenario, r *engine.PRNG, cfg world.InstCfg, types []string, f
 	op := Op{Type: tn, VSeed: r.Next() | 1, VSize: 3 + r.Intn(20)}
 	if ti.Bad {
 		op.Kind = "codec"
+		if sc.SimReg {
+			op.Kind = "simreg"
+		}
 		op.VSeed = 0
 		return op, true
 	}
@@ -126,6 +129,9 @@ func genC07Op(sc *Scenario, r *engine.PRNG, cfg world.InstCfg, types []string, f
 		if r.Intn(3) == 0 {
 			op.VSeed = 0 // descriptor only
 		}
+		if sc.SimReg {
+			op.Kind = "simreg" // through the simulator-owned registry
+		}
 	}
 	return op, true
 }
@@ -145,6 +151,8 @@ func GenC07(seed uint64, idx int) *Scenario {
 		nt = 5 + r.Intn(2)
 	}
 	sc := &Scenario{Prop: "C07", Seed: seed, Index: idx, Insts: []world.InstCfg{cfg}, PoolSeam: true, PoolBias: 50, SchedSeed: r.Next()}
+	// one run in six builds its codecs through the exported registry seam
+	sc.SimReg = r.Intn(6) == 0 && !cfg.Default
 	if fam != "F9" && r.Intn(2) == 0 {
 		// shared read-only values marshalled by several tasks at once
 		for i := 0; i < 1+r.Intn(2); i++ {
@@ -177,6 +185,13 @@ func GenC07(seed uint64, idx int) *Scenario {
 		sc.Tasks = append(sc.Tasks, ops)
 	}
 	sc.Sites = pickSites(&r, buildSites, steadySites, []int{0, 30, 60, 100}[r.Intn(4)])
+	if sc.SimReg {
+		sc.Sites = append(sc.Sites, "simreg.load", "simreg.storeOrSwap")
+		if r.Intn(2) == 0 {
+			// only the seam's own yields: what is left if a change removed the hooks
+			sc.Sites = []string{"simreg.load", "simreg.storeOrSwap", "op.begin"}
+		}
+	}
 	sc.Policy = pickPolicy(&r, nt)
 	return sc
 }
